@@ -22,3 +22,9 @@ package account
 //@   trusted
 //@   modifies as.index[*], as.swaps[*]
 //@   ensures validAccount(result)
+//
+//@ func (*Registry).ValuationAccountFor
+//@   trusted
+//@   requires a != nil
+//@   modifies as.index[*], as.swaps[*]
+//@   ensures validAccount(result) && result.accountType == 3
